@@ -189,6 +189,41 @@ func init() {
 		sb.WriteString("\ndef rankUnmarshalCalls : List String := " + LeanStrList(CallSeq(FindFunc(byName["rank.go"], "rankVector", "Unmarshal"))) + "\n")
 		sb.WriteString("\ndef pathWriteCalls : List String := " + LeanStrList(CallSeq(FindFunc(byName["label_vector.go"], "compressPathVector", "Write"))) + "\n")
 		sb.WriteString("\ndef pathUnmarshalCalls : List String := " + LeanStrList(CallSeq(FindFunc(byName["label_vector.go"], "compressPathVector", "Unmarshal"))) + "\n")
+		// round 8: the remaining readers, the cursor moves, and "every field of the object is assigned by
+		// its Unmarshal" (a pooled trie object keeps nothing of its previous use)
+		bvFile, err := parse("pkg/trie/bits_vector.go")
+		if err != nil {
+			return "", err
+		}
+		sb.WriteString("\ndef selectUnmarshalCalls : List String := " + LeanStrList(CallSeq(FindFunc(byName["select.go"], "selectVector", "Unmarshal"))) + "\n")
+		sb.WriteString("\ndef labelUnmarshalCalls : List String := " + LeanStrList(CallSeq(FindFunc(byName["label_vector.go"], "labelVector", "Unmarshal"))) + "\n")
+		sb.WriteString("\ndef valueUnmarshalCalls : List String := " + LeanStrList(CallSeq(FindFunc(byName["label_vector.go"], "valueVector", "Unmarshal"))) + "\n")
+		sb.WriteString("\ndef bitUnmarshalCalls : List String := " + LeanStrList(CallSeq(FindFunc(bvFile, "bitVector", "unmarshal"))) + "\n")
+		sb.WriteString("\ndef nextCalls : List String := " + LeanStrList(CallSeq(FindFunc(byName["iterator.go"], "Iterator", "Next"))) + "\n")
+		sb.WriteString("\ndef prevCalls : List String := " + LeanStrList(CallSeq(FindFunc(byName["iterator.go"], "Iterator", "Prev"))) + "\n")
+		for _, x := range []struct {
+			name, typ, fn string
+			file          *ast.File
+		}{
+			{"trie", "trie", "UnmarshalBinary", byName["trie.go"]},
+			{"labelVector", "labelVector", "Unmarshal", byName["label_vector.go"]},
+			{"valueVector", "valueVector", "Unmarshal", byName["label_vector.go"]},
+			{"pathVector", "compressPathVector", "Unmarshal", byName["label_vector.go"]},
+			{"bitVector", "bitVector", "unmarshal", bvFile},
+			{"rankVector", "rankVector", "Unmarshal", byName["rank.go"]},
+			{"selectVector", "selectVector", "Unmarshal", byName["select.go"]},
+		} {
+			fields := c20StructFields(x.file, x.typ)
+			if fields == nil {
+				return "", fmt.Errorf("struct %s not found", x.typ)
+			}
+			fd := FindFunc(x.file, x.typ, x.fn)
+			if fd == nil {
+				return "", fmt.Errorf("%s.%s not found", x.typ, x.fn)
+			}
+			fmt.Fprintf(&sb, "\ndef %sFields : List String := %s\n", x.name, LeanStrList(fields))
+			fmt.Fprintf(&sb, "\ndef %sAssigned : List String := %s\n", x.name, LeanStrList(c20AssignedFields(fd)))
+		}
 		// like dispatch of the index kv store
 		ks, err := parse("index/kv_store.go")
 		if err != nil {
@@ -265,4 +300,72 @@ func init() {
 		sb.WriteString("\ndef mergerCalls : List String := " + LeanStrList(CallSeq(FindFunc(mg, "indexKVMerger", "Merge"))) + "\n")
 		return sb.String(), nil
 	}})
+}
+
+// c20StructFields lists the field names of a struct type (an embedded field by its type name).
+func c20StructFields(f *ast.File, typ string) []string {
+	var out []string
+	ast.Inspect(f, func(n ast.Node) bool {
+		ts, ok := n.(*ast.TypeSpec)
+		if !ok || ts.Name.Name != typ {
+			return true
+		}
+		st, ok := ts.Type.(*ast.StructType)
+		if !ok {
+			return false
+		}
+		for _, fl := range st.Fields.List {
+			if len(fl.Names) == 0 {
+				if id, ok := fl.Type.(*ast.Ident); ok {
+					out = append(out, id.Name)
+				}
+				continue
+			}
+			for _, nm := range fl.Names {
+				out = append(out, nm.Name)
+			}
+		}
+		return false
+	})
+	return out
+}
+
+// c20AssignedFields lists, in source order, the fields of the receiver that the method assigns
+// (`recv.f = …`, also inside a tuple assignment) and the fields / embedded parts whose own
+// Unmarshal / unmarshal method it calls (`recv.f.Unmarshal(…)`, `recv.unmarshal(…)` → "bitVector").
+func c20AssignedFields(fd *ast.FuncDecl) []string {
+	if fd.Recv == nil || len(fd.Recv.List) == 0 || len(fd.Recv.List[0].Names) == 0 {
+		return nil
+	}
+	recv := fd.Recv.List[0].Names[0].Name
+	var out []string
+	ast.Inspect(fd.Body, func(n ast.Node) bool {
+		switch x := n.(type) {
+		case *ast.AssignStmt:
+			for _, l := range x.Lhs {
+				if se, ok := l.(*ast.SelectorExpr); ok {
+					if id, ok := se.X.(*ast.Ident); ok && id.Name == recv {
+						out = append(out, se.Sel.Name)
+					}
+				}
+			}
+		case *ast.CallExpr:
+			se, ok := x.Fun.(*ast.SelectorExpr)
+			if !ok || (se.Sel.Name != "Unmarshal" && se.Sel.Name != "unmarshal") {
+				return true
+			}
+			switch r := se.X.(type) {
+			case *ast.Ident:
+				if r.Name == recv {
+					out = append(out, "bitVector") // promoted method of the embedded bit vector
+				}
+			case *ast.SelectorExpr:
+				if id, ok := r.X.(*ast.Ident); ok && id.Name == recv {
+					out = append(out, r.Sel.Name)
+				}
+			}
+		}
+		return true
+	})
+	return out
 }
